@@ -669,10 +669,11 @@ func runC06(r *report.Report) {
 	} else {
 		explorePart(r, "table-depth3", params{Mode: "table", Depth: 3, Full: true}, 0, "delivery")
 		explorePart(r, "nested-filters-depth5", params{Mode: "nested", Depth: 5}, 0, "delivery")
-		explorePart(r, "multi-2clients", params{Mode: "multi", Depth: 5, Clients: 2}, 0, "delivery")
-		explorePart(r, "multi-3clients", params{Mode: "multi", Depth: 4, Clients: 3, Full: true}, 0, "delivery")
-		explorePart(r, "multi-2clients-reordered", params{Mode: "multi", Depth: 3, Clients: 2}, 1, "delivery")
+		// (smaller parts first: the internal budget, if it is reached, then cuts only the largest one)
 		explorePart(r, "table-reordered", params{Mode: "table", Depth: 1, Full: true}, 2, "delivery")
+		explorePart(r, "multi-2clients-reordered", params{Mode: "multi", Depth: 3, Clients: 2}, 1, "delivery")
+		explorePart(r, "multi-3clients", params{Mode: "multi", Depth: 3, Clients: 3, Full: true}, 0, "delivery")
+		explorePart(r, "multi-2clients", params{Mode: "multi", Depth: 5, Clients: 2}, 0, "delivery")
 	}
 }
 
